@@ -38,7 +38,7 @@ def run(ctx: Ctx):
         raise tlc.MachineryError(f'design counterexample in BaseStage.tla ({cfg}): {r.violated}\n{r.counterexample[-1:]}')
     ctx.notes['design_invariants'] = ['Inv_C11_Quantiles (the quantile search commutes with strictly increasing re-encodings); the carving model '
                                       'Carver.tla only sees counts per ordered bucket, i.e. is re-encoding invariant by construction']
-    n = 260 if ctx.tier == 'quick' else 2500
+    n = 600 if ctx.tier == 'quick' else 2500
     base = ctx.seed * 1_000_003
     seeds = [base + i for i in range(n)]
     cases = []
